@@ -3,6 +3,7 @@ package main
 // Calls: contracts, interface contracts, inlining, built-ins, locks, havoc.
 
 import (
+	"strconv"
 	"path/filepath"
 	"os"
 	"fmt"
@@ -209,6 +210,13 @@ func (vc *VC) execCall(fr *Frame, c *ssa.CallCommon, site ssa.Instruction, pos t
 // atCallAsserts checks the `atcall` assertions of the current function that
 // name the callee of c.
 func (vc *VC) atCallAsserts(fr *Frame, c *ssa.CallCommon, args []*Val, site ssa.Instruction, pos token.Pos) {
+	vc.atPointAsserts(fr, c, "", args, site, pos)
+}
+
+// atPointAsserts: as atCallAsserts; with c == nil the program point is not a
+// call but a map update, addressed in contracts as `atcall mapupdate ...` with
+// arg0 = the map, arg1 = the key, arg2 = the value.
+func (vc *VC) atPointAsserts(fr *Frame, c *ssa.CallCommon, pseudo string, args []*Val, site ssa.Instruction, pos token.Pos) {
 	specFr := fr
 	if (fr.spec == nil || len(fr.spec.AtCalls) == 0) && vc.top != nil && fr != vc.top && fr.fn.Parent() != nil {
 		// a call inside a closure of the function under verification (run
@@ -219,7 +227,9 @@ func (vc *VC) atCallAsserts(fr *Frame, c *ssa.CallCommon, args []*Val, site ssa.
 		return
 	}
 	var name string
-	if c.IsInvoke() {
+	if c == nil {
+		name = pseudo
+	} else if c.IsInvoke() {
 		name = types.TypeString(c.Value.Type(), func(p *types.Package) string { return p.Name() }) + "." + c.Method.Name()
 	} else if callee := c.StaticCallee(); callee != nil {
 		name = callee.String()
@@ -260,7 +270,7 @@ func (vc *VC) atCallAsserts(fr *Frame, c *ssa.CallCommon, args []*Val, site ssa.
 		}
 		// the call's operands: arg0 is the receiver of a method call
 		k := 0
-		if c.IsInvoke() {
+		if c != nil && c.IsInvoke() {
 			names["arg0"] = vc.valueOf(fr, c.Value)
 			k = 1
 		}
@@ -1313,6 +1323,7 @@ func (vc *VC) appendOp(fr *Frame, c *ssa.CallCommon, args []*Val, pos token.Pos)
 		n = fmt.Sprint(k)
 	}
 	heap := vc.get(hn, hs)
+	vc.markIndex(fmt.Sprintf("(s_len %s)", s.T))
 	oldArr := fmt.Sprintf("(select %s (s_arr %s))", heap, s.T)
 	newLen := fmt.Sprintf("(+ (s_len %s) %s)", s.T, n)
 	fits := vc.define("append_fits", "Bool", fmt.Sprintf("(and (not (= (s_arr %s) 0)) (<= %s (s_cap %s)))", s.T, newLen, s.T))
@@ -1362,6 +1373,25 @@ func (vc *VC) copyOp(fr *Frame, c *ssa.CallCommon, args []*Val, pos token.Pos) *
 	_, srcIsStr := c.Args[1].Type().Underlying().(*types.Basic)
 	if srcIsStr {
 		srcLen = fmt.Sprintf("(slen %s)", src.T)
+	}
+	if dOff, dN, ok := constArraySlice(c.Args[0]); ok && !srcIsStr {
+		if sOff, sN, ok := constArraySlice(c.Args[1]); ok && dN <= maxArrUnroll && sN <= maxArrUnroll {
+			// both operands are constant windows of fixed-size arrays: the
+			// copy is written out element by element (all reads from the
+			// state before the copy, as memmove does)
+			cnt := min(dN, sN)
+			if cnt == 0 {
+				return &Val{T: "0", Ty: types.Typ[types.Int]}
+			}
+			srcArr := fmt.Sprintf("(select %s (s_arr %s))", heap, src.T)
+			r := fmt.Sprintf("(select %s (s_arr %s))", heap, dst.T)
+			for k := int64(0); k < cnt; k++ {
+				r = fmt.Sprintf("(store %s %d (select %s %d))", r, dOff+k, srcArr, sOff+k)
+			}
+			vc.frameCheck(hn, fmt.Sprintf("(s_arr %s)", dst.T), pos)
+			vc.set(hn, hs, fmt.Sprintf("(store %s (s_arr %s) %s)", heap, dst.T, r))
+			return &Val{T: strconv.FormatInt(cnt, 10), Ty: types.Typ[types.Int]}
+		}
 	}
 	n := vc.define("copy_n", "Int", fmt.Sprintf("(ite (<= (s_len %s) %s) (s_len %s) %s)", dst.T, srcLen, dst.T, srcLen))
 	arr := vc.fresh("copy_elems", "(Array Int "+es+")")
@@ -1527,4 +1557,40 @@ func callsContextWith(fn *ssa.Function) bool {
 		}
 	}
 	return false
+}
+
+// constArraySlice recognises a[lo:hi] of a pointer to a fixed-size array with
+// constant (or absent) bounds: the window's offset and length.
+func constArraySlice(v ssa.Value) (off, n int64, ok bool) {
+	sl, isSl := v.(*ssa.Slice)
+	if !isSl || sl.Max != nil {
+		return 0, 0, false
+	}
+	pt, isPtr := sl.X.Type().Underlying().(*types.Pointer)
+	if !isPtr {
+		return 0, 0, false
+	}
+	at, isArr := pt.Elem().Underlying().(*types.Array)
+	if !isArr {
+		return 0, 0, false
+	}
+	lo, hi := int64(0), at.Len()
+	if sl.Low != nil {
+		c, ok := constInt(sl.Low)
+		if !ok {
+			return 0, 0, false
+		}
+		lo = c
+	}
+	if sl.High != nil {
+		c, ok := constInt(sl.High)
+		if !ok {
+			return 0, 0, false
+		}
+		hi = c
+	}
+	if lo < 0 || hi < lo || hi > at.Len() {
+		return 0, 0, false
+	}
+	return lo, hi - lo, true
 }
